@@ -1101,6 +1101,9 @@ fn worker(me: usize, spec: &ExecSpec, region: (usize, usize), out: &mut ThreadOu
         Ok(vm) => conv(guarded(me, || exec_vm(vm, spec.engine, region))),
         Err(e) => Outcome::NotBuilt(e.clone()),
     };
+    // (an execution that unwound or was recovered from a fatal signal skipped the instruction that
+    // clears the trap flag: clear it here, while the handler still knows this thread is stepping)
+    unsafe { core::arch::asm!("pushfq", "and qword ptr [rsp], -257", "popfq") };
     sim().step_mode[me] = false;
     out.unlocked_generated = sim().unlocked_generated[me];
     out.stepped = sim().stepped[me];
